@@ -27,8 +27,13 @@ CONSTANTS Slots,     \* names of the token strings in play, e.g. {"t1","t2"}
 Algs  == {"RS256", "ES256", "PS256", "HS256", "none"}
 Keys  == {"k1", "k2", "x1", "x2"}       \* who signed: k1 RSA, k2 EC (both published, k1 first); x1 RSA, x2 EC never published
 Kids  == {"k1", "k2", "unknown", "absent"}
-Isss  == {"match", "other", "absent"}
-Auds  == {"match", "multi", "other", "absent"}   \* multi = a list that contains the configured audience
+(* iss / aud: equality classes AND near misses of the configured value c (string relations):      *)
+(*   match   = c                     prefix  = a proper prefix of c                                *)
+(*   extpath = c + "/partner"        exthost = c + ".attacker.example/"   (c is a proper prefix)  *)
+(*   slash   = c + "/"               case    = c with letters of the other case                   *)
+(*   other   = unrelated             absent  = no claim        multi (aud) = a list containing c  *)
+Isss  == {"match", "prefix", "extpath", "exthost", "slash", "case", "other", "absent"}
+Auds  == {"match", "multi", "prefix", "extpath", "exthost", "slash", "case", "other", "absent"}
 Exps  == {"past", "soon", "far", "absent"}
 JtiV  == Jtis \cup {"none"}
 
@@ -56,14 +61,23 @@ DynProfiles == { <<"RS256", "k1", TRUE,  "k1",     "match", "match">>,
                  <<"RS256", "k1", TRUE,  "absent", "match", "match">>,
                  <<"RS256", "k1", FALSE, "k1",     "match", "match">>,
                  <<"RS256", "x1", TRUE,  "k1",     "match", "match">>,
-                 <<"ES256", "k2", TRUE,  "k2",     "other", "match">>,
-                 <<"ES256", "k2", TRUE,  "k2",     "match", "other">> }
+                 <<"ES256", "k2", TRUE,  "k2",     "exthost", "match">>,
+                 <<"ES256", "k2", TRUE,  "k2",     "match", "extpath">> }
 Dyn  == {t \in Full : Profile(t) \in DynProfiles}
 Pair == {t \in Full : Profile(t) \in { <<"RS256", "k1", TRUE, "k1", "match", "match">>,
                                         <<"ES256", "k2", TRUE, "k2", "match", "multi">> }
                       /\ t.exp \in {"soon", "far"} /\ t.jti # "none"}
 
+(* the neighbourhood of the acceptable tokens: every vector that differs from an acceptable base  *)
+(* vector in at most two of the eight attributes (all single and double faults / near misses)     *)
+Dims == {"alg", "key", "sigok", "kid", "iss", "aud", "exp", "jti"}
+Dist(a, b) == Cardinality({d \in Dims : a[d] # b[d]})
+BaseVecs == {[alg |-> p[1], key |-> p[2], sigok |-> TRUE, kid |-> p[3], iss |-> "match", aud |-> "match", exp |-> "far", jti |-> j] :
+               p \in { <<"RS256", "k1", "k1">>, <<"RS256", "k1", "absent">>, <<"ES256", "k2", "k2">> }, j \in Jtis}
+Near == {t \in Full : \E b \in BaseVecs : Dist(t, b) <= 2}
+
 U == CASE Universe = "full" -> Full
+       [] Universe = "near" -> Near
        [] Universe = "dyn"  -> Dyn
        [] Universe = "pair" -> Pair
 
@@ -98,7 +112,7 @@ CryptoVerifies(t, k, alg) ==       \* does t's signature verify under key k with
 (* --- what the statement of C22 demands of an accepted token ------------- *)
 AllowedAlgs == {"RS256", "ES256"}
 SigOK(t)      == t.alg \in AllowedAlgs /\ \E k \in PublishedSet : CryptoVerifies(t, k, t.alg)
-IssOK(t)      == t.iss = "match"
+IssOK(t)      == t.iss = "match"                           \* "match the configuration": equality, no near miss
 AudOK(t)      == audcfg => t.aud \in {"match", "multi"}
 NotExpired(t) == t.exp = "absent" \/ clock < ExpAt(t)     \* a token without exp "has not expired"
 NotRevoked(t) == t.jti = "none" \/ t.jti \notin revoked
